@@ -91,21 +91,6 @@ func c15Partial(a, b cdc) bool {
 	return ch(a.Ch) == ch(b.Ch)
 }
 
-// the oracle's own reading of an fmtp line's apt parameter (last one wins)
-func c15HasApt(c cdc) (string, bool) {
-	val, ok := "", false
-	for _, p := range strings.Split(c.Line, ";") {
-		kv := strings.SplitN(strings.TrimSpace(p), "=", 2)
-		if strings.ToLower(kv[0]) == "apt" {
-			val, ok = "", true
-			if len(kv) > 1 {
-				val = kv[1]
-			}
-		}
-	}
-	return val, ok
-}
-
 func c15Run(c c15Case) (V, Verdict) {
 	me := &webrtc.MediaEngine{}
 	var verr, aerr VL
